@@ -9,6 +9,7 @@ use lightning_signer::bitcoin::secp256k1::{All, PublicKey, Secp256k1, SecretKey}
 use lightning_signer::bitcoin::sighash::EcdsaSighashType;
 use lightning_signer::bitcoin::{BlockHash, ScriptBuf};
 use lightning_signer::channel::{ChannelBase, ChannelId};
+use lightning_signer::node::NodeMonitor;
 use lightning_signer::lightning::types::payment::PaymentHash;
 use lightning_signer::node::Node;
 use lightning_signer::util::status::Status;
@@ -156,6 +157,9 @@ struct Ghost {
     /// extra candidate contents for signature identification (redundant signing)
     extra_contents: Vec<(u64, Content)>,
     cp_signed: BTreeMap<u64, (PublicKey, u64)>,
+    /// points of counterparty commitments whose signing request got as far as the store and failed there: the
+    /// signer may remember having signed them although no signature was released
+    cp_unreleased: BTreeMap<u64, Vec<PublicKey>>,
     cp_revoked: BTreeSet<u64>,
     cp_secrets: Vec<(u64, [u8; 32])>,
     any_secret_before_setup: bool,
@@ -187,6 +191,9 @@ struct Hist {
     index: u64,
     /// C11: differences (label=hash of restored value) already present after the previous request
     c11_known: BTreeSet<String>,
+    c11_ext_known: BTreeSet<String>,
+    c11_probe_known: u64,
+    c11_ext_conflicts: usize,
 }
 
 #[derive(Clone, Copy, PartialEq, Eq, Debug)]
@@ -253,11 +260,16 @@ struct Outcome {
     cp_revocation: Option<(u64, [u8; 32])>,
     redundant: Option<(u64, Content)>,
     closed_sig: bool,
+    /// the request carried valid-by-construction signatures for (n, content), whatever the reply was
+    valid_attempt: Option<(u64, Content)>,
+    /// the revocation secret presented, whatever the reply was
+    cp_revocation_attempt: Option<(u64, [u8; 32])>,
+    cp_sign_attempt: Option<(u64, PublicKey)>,
 }
 
 impl Outcome {
     fn new(res: Res) -> Outcome {
-        Outcome { res, secrets: vec![], holder_sig: None, recovery_txid: None, valid_submission: None, cp_sign: None, cp_revocation: None, redundant: None, closed_sig: false }
+        Outcome { res, secrets: vec![], holder_sig: None, recovery_txid: None, valid_submission: None, cp_sign: None, cp_revocation: None, redundant: None, closed_sig: false, valid_attempt: None, cp_revocation_attempt: None, cp_sign_attempt: None }
     }
 }
 
@@ -267,7 +279,7 @@ impl Hist {
         cfg.cloud = cloud;
         cfg.policy.max_invoices = 100_000;
         let world = World::new(cfg);
-        Hist { world, chans: vec![], log: vec![], next_dbid: 1, fresh_tag: (shard as u64) << 40 | index << 20, keysend_tag: 0, secp: Secp256k1::new(), shard, index, c11_known: BTreeSet::new() }
+        Hist { world, chans: vec![], log: vec![], next_dbid: 1, fresh_tag: (shard as u64) << 40 | index << 20, keysend_tag: 0, secp: Secp256k1::new(), shard, index, c11_known: BTreeSet::new(), c11_ext_known: BTreeSet::new(), c11_probe_known: 0, c11_ext_conflicts: 0 }
     }
 
     fn height(&self) -> u32 {
@@ -465,22 +477,12 @@ impl Hist {
             Op::SignCounterparty { c, n, api, point, mutate_content } => self.sign_counterparty(rng, c, n, api, point, mutate_content),
             Op::ValidateRevocation { c, n, api, secret } => self.validate_revocation(rng, c, n, api, secret),
             Op::MutualClose { c, api, bad } => self.mutual_close(rng, c, api, bad),
-            Op::Restart => match self.world.restart() {
-                Ok(()) => Outcome::new(Res::Ok),
-                Err(e) => Outcome::new(Res::Panic(format!("restart failed: {}", e))),
+            Op::Restart => match report::catch(|| self.world.restart()) {
+                Ok(Ok(())) => Outcome::new(Res::Ok),
+                Ok(Err(e)) => Outcome::new(Res::Panic(format!("restart failed: {}", e))),
+                Err(p) => Outcome::new(Res::Panic(format!("restart failed: panic: {}", p))),
             },
-            Op::AddBlock => match report::catch(|| self.world.request(|_| ()).0).and_then(|_| {
-                if self.world.store.is_cloud() {
-                    let p = self.world.store.as_persist();
-                    p.enter().map_err(|e| format!("{:?}", e))?;
-                    let r = self.world.add_empty_block();
-                    let _ = p.prepare();
-                    p.commit().map_err(|e| format!("{:?}", e))?;
-                    r
-                } else {
-                    self.world.add_empty_block()
-                }
-            }) {
+            Op::AddBlock => match report::catch(|| self.world.request(|_| self.world.add_empty_block()).0).and_then(|r| r) {
                 Ok(()) => Outcome::new(Res::Ok),
                 Err(e) => Outcome::new(Res::Err(e)),
             },
@@ -702,6 +704,9 @@ impl Hist {
                 o
             }
         };
+        if valid {
+            out.valid_attempt = Some((n, content.clone()));
+        }
         if valid && out.res.is_ok() {
             out.valid_submission = Some((n, content));
         }
@@ -866,6 +871,7 @@ impl Hist {
             }
         };
         let mut o = Outcome::new(res);
+        o.cp_sign_attempt = Some((n, point));
         if o.res.is_ok() {
             o.cp_sign = Some((n, point, content.key()));
             self.chans[c].cp_contents.entry(n).or_insert(content);
@@ -904,6 +910,7 @@ impl Hist {
             }
         };
         let mut o = Outcome::new(res);
+        o.cp_revocation_attempt = Some((n, secret));
         if o.res.is_ok() {
             o.cp_revocation = Some((n, secret));
         }
@@ -1167,7 +1174,12 @@ fn monitors(h: &mut Hist, r: &mut Report, cli: &Cli, prop: Prop, op: &Op, out: &
                     }
                 }
                 // C02: nothing new may be disclosed once a holder commitment was signed
-                if newly && !ch.g.signed.is_empty() {
+                // (after a storage failure a refused revoke may have advanced the signer's memory without
+                // releasing the secret, so the late release of an older secret is not by itself the stated
+                // violation: in such histories only "same commitment signed and revoked" counts)
+                if newly && !ch.g.signed.is_empty() && !r.sig_suffix.is_empty() && !ch.g.signed.contains(&k) {
+                    r.count("c02.late_release_after_storage_failure_not_judged");
+                } else if newly && !ch.g.signed.is_empty() {
                     if prop == Prop::C02 {
                         let sig = if ch.g.signed.contains(&k) { "c02:revoked-after-signing-same-commitment" } else { "c02:new-revocation-after-holder-signature-released" };
                         r.violation(sig, witness(h, cli, json!({"op": format!("{:?}", op), "disclosed": k, "signed": ch.g.signed })));
@@ -1271,7 +1283,7 @@ fn monitors(h: &mut Hist, r: &mut Report, cli: &Cli, prop: Prop, op: &Op, out: &
         let sk = SecretKey::from_slice(secret).unwrap();
         let p = PublicKey::from_secret_key(&secp, &sk);
         let expect = ch.g.cp_signed.get(n).map(|x| x.0);
-        let point_ok = expect == Some(p);
+        let point_ok = expect == Some(p) || ch.g.cp_unreleased.get(n).map(|v| v.contains(&p)).unwrap_or(false);
         let tree_ok = secret_tree_consistent(&ch.g.cp_secrets, *n, secret);
         r.distinct_hash(fnv_str(&format!("cpr:{}:{}:{}:{}", op_api(op), point_ok, tree_ok, ch.g.cp_revoked.contains(n))));
         if !point_ok {
@@ -1334,6 +1346,11 @@ fn c11_check(h: &mut Hist, r: &mut Report, cli: &Cli, op: &Op, out: &Outcome) {
     }
     h.c11_known = current;
     r.distinct_hash(fnv_str(&format!("c11:{}:{}:{}", op_kind(op), op_api(op), out.res.tag())));
+    // differential replies: the restored signer must answer read-only requests as the running one does
+    c11_probe(h, &shadow, r, cli, op, "store-copy");
+    if h.world.store.is_cloud() {
+        c11_external(h, &live, now, r, cli, op);
+    }
     if !relevant.is_empty() {
         let labels: Vec<String> = relevant.iter().map(|x| {
             let k = &x.0;
@@ -1342,6 +1359,123 @@ fn c11_check(h: &mut Hist, r: &mut Report, cli: &Cli, op: &Op, out: &Outcome) {
         let sig = format!("c11:not-durable:{}:{}", op_kind(op), labels.join("+"));
         r.violation(&sig, witness(h, cli, json!({"op": format!("{:?}", op), "result": out.res.tag(), "differences(running vs restored)": snapshot::brief(&relevant)})));
     }
+}
+
+/// Read-only questions asked of both signers.  Answers are compared, never interpreted.
+fn c11_probe(h: &mut Hist, shadow: &Arc<Node>, r: &mut Report, cli: &Cli, op: &Op, how: &str) {
+    let mut diffs = vec![];
+    for c in 0..h.chans.len() {
+        let id = h.chans[c].m.id0.clone();
+        let lo = h.peek_counters(c).0.saturating_sub(4);
+        let ask = |node: &Arc<Node>| -> Vec<String> {
+            let mut v = vec![];
+            let base = report::catch(|| {
+                node.with_channel_base(&id, |b| {
+                    let mut a = vec![];
+                    // every per-commitment secret the signer is willing to disclose in a small window around the
+                    // revocation frontier, and the points around the holder frontier
+                    for n in lo..lo + 7 {
+                        a.push(format!("secret_or_none({})={:?}", n, b.get_per_commitment_secret_or_none(n).map(|s| fnv_str(&hex::encode(s.secret_bytes())))));
+                    }
+                    for n in lo..lo + 7 {
+                        a.push(format!("point({})={:?}", n, b.get_per_commitment_point(n).map(|p| p.to_string()).map_err(|e| err_tag(&format!("{:?}", e)))));
+                    }
+                    Ok(a)
+                })
+            });
+            match base {
+                Ok(Ok(a)) => v.extend(a),
+                Ok(Err(e)) => v.push(format!("base-err:{}", err_tag(&format!("{:?}", e)))),
+                Err(p) => v.push(format!("base-panic:{}", p.chars().take(60).collect::<String>())),
+            }
+            let bal = report::catch(|| node.with_channel(&id, |ch| Ok(format!("{:?}", ch.balance()))));
+            v.push(format!("balance={:?}", bal.map(|x| x.map_err(|e| err_tag(&format!("{:?}", e))))));
+            v
+        };
+        let a = ask(&h.world.node);
+        let b = ask(shadow);
+        r.count("c11.probe_answers_compared");
+        for (x, y) in a.iter().zip(b.iter()) {
+            if x != y {
+                diffs.push(json!({"channel": c, "running": x, "restored": y}));
+            }
+        }
+        if a.len() != b.len() {
+            diffs.push(json!({"channel": c, "running_answers": a.len(), "restored_answers": b.len()}));
+        }
+    }
+    let a = format!("{:?}", h.world.node.channel_balance());
+    let b = format!("{:?}", shadow.channel_balance());
+    if a != b {
+        diffs.push(json!({"node": "channel_balance", "running": a, "restored": b}));
+    }
+    let a: Vec<String> = h.world.node.allowlist().map(|v| v.into_iter().collect::<BTreeSet<_>>().into_iter().collect()).unwrap_or_default();
+    let b: Vec<String> = shadow.allowlist().map(|v| v.into_iter().collect::<BTreeSet<_>>().into_iter().collect()).unwrap_or_default();
+    if a != b {
+        diffs.push(json!({"node": "allowlist", "running": a, "restored": b}));
+    }
+    if !diffs.is_empty() {
+        // the same difference persists until the next persist of that item: report on appearance only
+        let key = fnv_str(&format!("{}:{}", how, serde_json::to_string(&diffs).unwrap_or_default()));
+        if h.c11_probe_known != key {
+            h.c11_probe_known = key;
+            let sig = format!("c11:restored-signer-answers-differently:{}:{}", how, op_kind(op));
+            r.violation(&sig, witness(h, cli, json!({"op": format!("{:?}", op), "differences": diffs})));
+        }
+    } else {
+        h.c11_probe_known = 0;
+    }
+}
+
+/// Cloud-staged store: what the external store received (the reported mutations alone) must restore the same
+/// signer.  That is the restart after a crash between `prepare` and `commit`: the local store is gone or stale,
+/// the external one has everything that was reported.
+fn c11_external(h: &mut Hist, live: &snapshot::Snapshot, now: u64, r: &mut Report, cli: &Cli, op: &Op) {
+    {
+        let x = h.world.external.lock().unwrap();
+        if x.conflicts.len() > h.c11_ext_conflicts {
+            let new: Vec<String> = x.conflicts[h.c11_ext_conflicts..].to_vec();
+            drop(x);
+            h.c11_ext_conflicts += new.len();
+            r.violation(&format!("c11:reported-mutation-conflicts-with-external-store:{}", op_kind(op)), witness(h, cli, json!({"op": format!("{:?}", op), "conflicts": new})));
+        }
+    }
+    let shadow = match report::catch(|| h.world.crash_copy_external()) {
+        Ok(Ok((_s, node))) => node,
+        Ok(Err(e)) => {
+            r.violation("c11:external-store-not-restorable-after-request", witness(h, cli, json!({"op": format!("{:?}", op), "error": e})));
+            return;
+        }
+        Err(p) => {
+            r.violation("c11:external-restore-panicked-after-request", witness(h, cli, json!({"op": format!("{:?}", op), "panic": p})));
+            return;
+        }
+    };
+    r.count("c11.crash_points_between_prepare_and_commit");
+    let rest = snapshot::take_memory(&shadow, now, false);
+    let mut relevant = vec![];
+    let mut current: BTreeSet<String> = BTreeSet::new();
+    for (k, a, b) in snapshot::diff(live, &rest) {
+        let listed = k.starts_with("chan.") || k.starts_with("tracker.") || k == "node.allowlist" || k == "node.invoices" || k == "node.dbid_high_water_mark";
+        if !listed {
+            continue;
+        }
+        let key = format!("{}={}", k, fnv_str(&b));
+        current.insert(key.clone());
+        if !h.c11_ext_known.contains(&key) {
+            relevant.push((k, a, b));
+        }
+    }
+    h.c11_ext_known = current;
+    if !relevant.is_empty() {
+        let labels: Vec<String> = relevant.iter().map(|x| {
+            let k = &x.0;
+            if k.starts_with("chan.") { format!("chan.{}", k.rsplit('.').next().unwrap_or("")) } else if k.starts_with("tracker.listener.") { "tracker.listener".into() } else { k.clone() }
+        }).collect::<BTreeSet<_>>().into_iter().collect();
+        let sig = format!("c11:not-in-reported-mutations:{}:{}", op_kind(op), labels.join("+"));
+        r.violation(&sig, witness(h, cli, json!({"op": format!("{:?}", op), "differences(running vs restored from the reported mutations)": snapshot::brief(&relevant)})));
+    }
+    c11_probe(h, &shadow, r, cli, op, "reported-mutations");
 }
 
 // ---------------------------------------------------------------------------------------------
@@ -1358,8 +1492,38 @@ fn run_history(rng: &mut Rng, r: &mut Report, cli: &Cli, prop: Prop, shard: usiz
         r.count("histories_with_full_header_window");
     }
     let mut both_sign_and_revoke_attempt = (false, false);
-    for _step in 0..steps {
-        let op = gen_op(rng, &h, prop);
+    // Storage faults (C01-C03, every fourth history): one episode per history.  From a random step on, the next
+    // channel request that reaches the store finds it unavailable for its first 1-2 writes (the persister's
+    // "temporarily unavailable, might work later"); afterwards the request is usually retried, and the daemon is
+    // restarted at once, a few requests later, or not at all.  Every violation raised after the episode carries
+    // the kind of the request that met the fault in its signature.
+    r.sig_suffix.clear();
+    let mut fault_from: Option<u64> = if matches!(prop, Prop::C01 | Prop::C02 | Prop::C03) && index % 4 == 3 { Some(rng.below(steps.max(1))) } else { None };
+    let fault_len = 1 + rng.below(2);
+    // some requests write twice (old-protocol validate = validate + revoke, channel setup = channel + tracker)
+    let fault_skip = if rng.chance(1, 4) { 1 } else { 0 };
+    let mut retry: Option<Op> = None;
+    let mut restart_in: Option<u64> = None;
+    if fault_from.is_some() {
+        r.count("histories_with_storage_fault_plan");
+    }
+    for step in 0..steps {
+        let op = match retry.take() {
+            Some(o) => o,
+            None => {
+                if restart_in == Some(0) {
+                    restart_in = None;
+                    Op::Restart
+                } else {
+                    gen_op(rng, &h, prop)
+                }
+            }
+        };
+        if let Some(k) = restart_in.as_mut() {
+            *k = k.saturating_sub(1);
+        }
+        let arm = fault_from.map(|f| step >= f).unwrap_or(false)
+            && matches!(op, Op::Setup { .. } | Op::ValidateHolder { .. } | Op::Revoke { .. } | Op::Activate { .. } | Op::SignHolder { .. } | Op::SignHolderRecovery { .. } | Op::SignHolderRedundant { .. } | Op::SignCounterparty { .. } | Op::ValidateRevocation { .. } | Op::MutualClose { .. });
         // content generation and payment registration are separate requests: do them before the snapshot
         if let Op::ValidateHolder { c, n, fresh_content, register, .. } = &op {
             if h.chans[*c].ready {
@@ -1367,11 +1531,56 @@ fn run_history(rng: &mut Rng, r: &mut Report, cli: &Cli, prop: Prop, shard: usiz
             }
         }
         let before = if prop == Prop::C10 { Some(snapshot::take(&h.world)) } else { None };
-        let staged_before = 0usize;
-        let _ = staged_before;
-        let out = h.exec(rng, &op);
+        if arm {
+            h.world.store.arm_faults(fault_skip, fault_len);
+        }
+        let mut out = h.exec(rng, &op);
+        let fired = if arm { h.world.store.disarm_faults() } else { 0 };
         r.eval(1);
         let kind = op_kind(&op);
+        if fired > 0 {
+            fault_from = None;
+            r.sig_suffix = format!(":after-storage-failure-in-{}", kind);
+            r.count("storage_fault.episodes");
+            r.count(&format!("storage_fault.{}.{}.{}", kind, op_api(&op), match &out.res { Res::Ok => "ok", Res::Err(_) => "err", Res::Panic(_) => "panic" }));
+            r.distinct_hash(fnv_str(&format!("fault:{}:{}:{}", kind, op_api(&op), out.res.tag())));
+            // The request got as far as writing, so the signer had checked what it was given.  What the harness
+            // knows to be true of the submission (signatures valid for exactly this content, the right secret)
+            // is true whatever the reply says: the ghost state is told, so that it never knows less than a
+            // correct signer's memory does.
+            if !out.res.is_ok() {
+                if out.valid_submission.is_none() {
+                    out.valid_submission = out.valid_attempt.clone();
+                }
+                if let (Some((n, point)), Some(c)) = (out.cp_sign_attempt, op_channel(&op)) {
+                    h.chans[c].g.cp_unreleased.entry(n).or_default().push(point);
+                }
+                if out.cp_revocation.is_none() {
+                    if let (Some((n, secret)), Some(c)) = (out.cp_revocation_attempt, op_channel(&op)) {
+                        let sk = SecretKey::from_slice(&secret).unwrap();
+                        let p = PublicKey::from_secret_key(&h.secp, &sk);
+                        let ch = &h.chans[c];
+                        let known = ch.g.cp_signed.get(&n).map(|x| x.0) == Some(p) || ch.g.cp_unreleased.get(&n).map(|v| v.contains(&p)).unwrap_or(false);
+                        if known && secret_tree_consistent(&ch.g.cp_secrets, n, &secret) {
+                            out.cp_revocation = Some((n, secret));
+                        }
+                    }
+                }
+            }
+            if !matches!(out.res, Res::Panic(_)) {
+                match rng.below(8) {
+                    0 => restart_in = Some(0),
+                    1 | 2 | 3 | 4 => {
+                        retry = Some(op.clone());
+                        if rng.chance(2, 3) {
+                            restart_in = Some(rng.below(3));
+                        }
+                    }
+                    5 => restart_in = Some(1 + rng.below(3)),
+                    _ => {}
+                }
+            }
+        }
         r.count(&format!("op.{}.{}", kind, match &out.res { Res::Ok => "ok", Res::Err(_) => "err", Res::Panic(_) => "panic" }));
         if matches!(op, Op::ValidateHolder { .. } | Op::SignCounterparty { .. }) {
             r.count(&format!("api.{}.{}.{}", kind, op_api(&op), match &out.res { Res::Ok => "ok", Res::Err(_) => "err", Res::Panic(_) => "panic" }));
@@ -1402,9 +1611,23 @@ fn run_history(rng: &mut Rng, r: &mut Report, cli: &Cli, prop: Prop, shard: usiz
                 let copy = h.world.store.deep_copy();
                 h.world.store = copy;
             }
-            if let Err(e) = h.world.restart() {
-                r.note(&format!("restart after panic failed: {}", e));
-                break;
+            match report::catch(|| h.world.restart()) {
+                Ok(Ok(())) => {}
+                Ok(Err(e)) => {
+                    r.note(&format!("restart after panic failed: {}", e));
+                    break;
+                }
+                Err(p) => {
+                    // a store left half-written by an injected storage failure may not be restorable at all
+                    // (the signer stays down, which no property of this driver forbids); anywhere else the
+                    // running signer could not have produced such a store
+                    if r.sig_suffix.is_empty() {
+                        r.inconclusive(&format!("restart panicked without any injected fault: {}", p.chars().take(160).collect::<String>()));
+                    } else {
+                        r.count("storage_fault.store_not_restorable_afterwards");
+                    }
+                    break;
+                }
             }
         }
         // C10: refused => nothing changed
@@ -1453,6 +1676,7 @@ fn run_history(rng: &mut Rng, r: &mut Report, cli: &Cli, prop: Prop, shard: usiz
     if both_sign_and_revoke_attempt.1 {
         r.count("histories_with_sign_then_revoke_attempt");
     }
+    r.sig_suffix.clear();
     if index < 2 && shard == 0 {
         r.sample(json!({"history": index, "first_ops": h.log.iter().take(25).collect::<Vec<_>>() }));
     }
